@@ -49,16 +49,36 @@ type StepRes struct {
 	// getmodule: first difference between the tree (or the errors) GetModule returned on the one value
 	// and what GetModule of a fresh set that loaded the same accepted texts returns ("" when equal)
 	GetDiff string `json:"get_diff,omitempty"`
-	Read     string `json:"read,omitempty"` // found <hex path> | found ~ | nomodule
+	Read    string `json:"read,omitempty"` // found <hex path> | found ~ | nomodule
 	// every op: first difference between the answers of the one value and of the SHADOW value - a
 	// second Modules value that runs the same history without the loads the one value refused -
 	// to the lookups a caller can make at any time ("" when equal)
 	ShadowDiff string `json:"shadow_diff,omitempty"`
+	// a REFUSED load or Read (and an accepted one in a file history): how the answer of the one value
+	// differs from the answer a FRESH value gives to the very same offer after it took the accepted
+	// operations of the history so far - accepted there, or refused with errors of other (position,
+	// class) ("" when the two answer alike): a refused text must not change what a later text is told
+	FreshLoadDiff string `json:"fresh_load_diff,omitempty"`
+	// file histories: ms.Path after the operation
+	Path []string `json:"path,omitempty"`
+	// file histories: the first difference of any of the kinds above between the one value and the
+	// DOCUMENTED-SIDE-EFFECT twin (a refused Read replaced by AddPath(directory the file was found in),
+	// see worker.go) - only used to recognise the known finding D18-P1
+	DocDiff string `json:"doc_diff,omitempty"`
+	// file histories, process / getmodule: the files the run read by itself through the search path
+	// (found path and text), for the session model (which has no search path: they travel as loads)
+	Implicit []FileSpec `json:"implicit,omitempty"`
+	// file histories, readfile: the path the file was found under and its text
+	Found *FileSpec `json:"found,omitempty"`
 }
 
 type GoRes struct {
 	Steps    []StepRes `json:"steps"`
 	Findings []string  `json:"findings,omitempty"`
+	// file histories: how many refused Reads had found their file (the directory went on the search
+	// path), and how many steps differ from the documented-side-effect twin
+	DocSideEffects int `json:"doc_side_effects,omitempty"`
+	DocDiffs       int `json:"doc_diffs,omitempty"`
 }
 
 func newModules(h History) *yang.Modules {
@@ -577,174 +597,6 @@ func firstLine(s string) string {
 	return s
 }
 
-// runGo is the worker body: the whole history on one Modules value.
-func runGo(h History) GoRes {
-	var res GoRes
-	add := func(s string) {
-		if len(res.Findings) < 10 {
-			res.Findings = append(res.Findings, s)
-		}
-	}
-	ms := newModules(h)
-	// the shadow: the same history, but a text the one value refuses is never offered to it
-	shadow := newModules(h)
-	lookupsOnly := []error{fmt.Errorf("lookups only")}
-	var goodN, goodT []string
-	for i, op := range h.Ops {
-		var sr StepRes
-		switch op.Op {
-		case "load":
-			before := nameMaps(ms)
-			err := ms.Parse(op.Text, op.Name)
-			if err == nil {
-				sr.Load = "accepted"
-				goodN = append(goodN, op.Name)
-				goodT = append(goodT, op.Text)
-				if serr := shadow.Parse(op.Text, op.Name); serr != nil {
-					add(fmt.Sprintf("op %d: %s is accepted after refused loads but refused without them: %s", i, op.Name, firstLine(serr.Error())))
-				}
-			} else {
-				sr.Load = classifyReject(op.Name, op.Text, err)
-				sr.Err = firstLine(err.Error())
-				if !sameMaps(before, nameMaps(ms)) {
-					add(fmt.Sprintf("op %d: the rejected load of %s changed Modules / SubModules", i, op.Name))
-				}
-			}
-		case "process":
-			errs := ms.Process()
-			base, ext := extendedDump(ms, errs)
-			sr.Dump = base
-			fresh := newModules(h)
-			for k := range goodN {
-				if err := fresh.Parse(goodT[k], goodN[k]); err != nil {
-					add(fmt.Sprintf("op %d: the batch run on a fresh set rejects %s, which the history accepted: %s", i, goodN[k], firstLine(err.Error())))
-				}
-			}
-			ferrs := fresh.Process()
-			_, fext := extendedDump(fresh, ferrs)
-			shadow.Process()
-			treesAfter(shadow)
-			// the queries a caller can make now, on both values (GetModule, which processes once
-			// more, at every third operation only)
-			ext = append(ext, queries(ms, errs, i%3 == 0)...)
-			fext = append(fext, queries(fresh, ferrs, i%3 == 0)...)
-			// the trees as they are handed out right now, also when the run reported errors (after the
-			// queries: GetModule has processed once more; a read is a perturbation too, so the shadow
-			// value is read in the same way above, right after its Process)
-			sr.TreeDiff = treeDiff(treesAfter(ms), treesAfter(fresh))
-			if d := rescorr.Diff(ext, fext); d != "" {
-				sr.BatchDiff = strings.Replace(d, "| model:", "| batch on a fresh set:", 1)
-				sr.BatchDiff = strings.Replace(sr.BatchDiff, "go:", "history:", 1)
-				sr.Batch = fext
-				if len(sr.Dump) == 0 {
-					sr.Dump = []string{}
-				}
-			}
-		case "getmodule":
-			// Modules.GetModule(name): the documented convenience path - it processes on demand and
-			// hands out the tree of one module.  What it RETURNS is compared with what GetModule of a
-			// fresh set that loaded the same accepted texts returns, then the value is looked at as
-			// after a Process (GetModule is a processing run for everything that follows).
-			if ms.Modules[op.Name] == nil {
-				// (GetModule would go to the file system: not part of the machine)
-				sr.Read = "nomodule"
-				break
-			}
-			e, errs := ms.GetModule(op.Name)
-			got := func(e *yang.Entry, errs []error) []string {
-				var out []string
-				if e != nil {
-					lib.DumpTree("module:"+op.Name, e, &out)
-					for _, x := range lib.CanonErrs(e.GetErrors()) {
-						out = append(out, "T-"+x)
-					}
-				} else {
-					out = append(out, "no tree returned")
-				}
-				for _, x := range lib.CanonErrs(errs) {
-					out = append(out, "E "+x)
-				}
-				return out
-			}
-			ga := got(e, errs)
-			fresh := newModules(h)
-			for k := range goodN {
-				if err := fresh.Parse(goodT[k], goodN[k]); err != nil {
-					add(fmt.Sprintf("op %d: the batch run on a fresh set rejects %s, which the history accepted: %s", i, goodN[k], firstLine(err.Error())))
-				}
-			}
-			fe, ferrs := fresh.GetModule(op.Name)
-			sr.GetDiff = returnedDiff(ga, got(fe, ferrs))
-			base, ext := extendedDump(ms, errs)
-			sr.Dump = base
-			if len(sr.Dump) == 0 {
-				sr.Dump = []string{}
-			}
-			_, fext := extendedDump(fresh, ferrs)
-			shadow.GetModule(op.Name)
-			treesAfter(shadow)
-			ext = append(ext, queries(ms, errs, false)...)
-			fext = append(fext, queries(fresh, ferrs, false)...)
-			sr.TreeDiff = treeDiff(treesAfter(ms), treesAfter(fresh))
-			if d := rescorr.Diff(ext, fext); d != "" {
-				sr.BatchDiff = strings.Replace(d, "| model:", "| batch on a fresh set:", 1)
-				sr.BatchDiff = strings.Replace(sr.BatchDiff, "go:", "history:", 1)
-				sr.Batch = fext
-			}
-		case "read":
-			m := ms.Modules[op.Key]
-			if m == nil {
-				sr.Read = "nomodule"
-				break
-			}
-			if e := yang.ToEntry(m).Find(op.Path); e != nil {
-				sr.Read = "found " + lib.HexS(e.Path())
-			} else {
-				sr.Read = "found ~"
-			}
-			if sm := shadow.Modules[op.Key]; sm != nil {
-				yang.ToEntry(sm).Find(op.Path)
-			}
-		case "walk":
-			// what a tool does between loads: convert everything, look at every node, collect errors
-			for _, m := range allModules(ms) {
-				e := yang.ToEntry(m)
-				var sink []string
-				lib.DumpTree(m.FullName(), e, &sink)
-				e.GetErrors()
-			}
-			// ... and ask for namespaces and modules by name (answers are not compared here: the
-			// set may be unprocessed; the same questions are compared after every Process)
-			queries(ms, []error{nil}, false)
-			for _, m := range allModules(shadow) {
-				e := yang.ToEntry(m)
-				var sink []string
-				lib.DumpTree(m.FullName(), e, &sink)
-				e.GetErrors()
-			}
-			sr.Read = "walked"
-		}
-		// after EVERY operation: what a caller can look up at any time (namespaces, modules and
-		// submodules by name and revision) must be answered as by the value that never saw the
-		// refused texts
-		qa, qb := queries(ms, lookupsOnly, false), queries(shadow, lookupsOnly, false)
-		if (op.Op == "load" && sr.Load != "accepted") || op.Op == "walk" || h.ReadsEverywhere {
-			// right after a refused load (and after a walk, which converts everything anyway; in a
-			// reads-everywhere history after every operation): the whole read battery - the trees
-			// ToEntry answers with, node by node, the errors recorded on them, identity value lists,
-			// Find inside the trees and across imports - a reader that comes before the next Process
-			// must see what it would see without the refused text
-			qa, qb = append(qa, readsOf(ms)...), append(qb, readsOf(shadow)...)
-		}
-		if d := rescorr.Diff(qa, qb); d != "" {
-			d = strings.Replace(d, "| model:", "| the same history without the refused loads:", 1)
-			sr.ShadowDiff = strings.Replace(d, "go:", "history:", 1)
-		}
-		res.Steps = append(res.Steps, sr)
-	}
-	return res
-}
-
 func serveChild() {
 	// FindModule falls back to reading name.yang from the current directory: keep it empty
 	if dir, err := os.MkdirTemp("", "corr-c18-"); err == nil {
@@ -775,7 +627,18 @@ func request(h History, g GoRes) string {
 	var sb strings.Builder
 	sb.WriteString("session " + b(h.IgnoreCircular) + " " + b(h.IgnoreNotSupported))
 	for i, op := range h.Ops {
+		if h.fileMode() {
+			// the session machine has no search path: the files a run read by itself travel as loads
+			// in front of the run (answers skipped by compare), a Read as the load of the file found
+			for _, f := range g.Steps[i].Implicit {
+				sb.WriteString(" T " + lib.HexS(f.Path) + " " + lib.HexS(f.Text))
+			}
+		}
 		switch op.Op {
+		case "readfile":
+			if f := g.Steps[i].Found; f != nil {
+				sb.WriteString(" T " + lib.HexS(f.Path) + " " + lib.HexS(f.Text))
+			}
 		case "load":
 			if h.Mode != "stmts" {
 				sb.WriteString(" T " + lib.HexS(op.Name) + " " + lib.HexS(op.Text))
@@ -795,7 +658,7 @@ func request(h History, g GoRes) string {
 			sb.WriteString(" P")
 		case "getmodule":
 			// for the session machine GetModule of a registered name is a processing run
-			if g.Steps[i].Read != "nomodule" {
+			if !skippedGet(g.Steps[i]) {
 				sb.WriteString(" P")
 			}
 		case "read":
@@ -803,6 +666,23 @@ func request(h History, g GoRes) string {
 		}
 	}
 	return sb.String()
+}
+
+// skippedGet: a getmodule operation that was no processing run (text histories: the name is not
+// registered, not executed; file histories: GetModule could not read the module).
+func skippedGet(s StepRes) bool { return s.Read == "nomodule" || s.Read == "getmodule-noread" }
+
+// modelSees: the operation has an answer of the session machine (request).
+func modelSees(op Op, s StepRes) bool {
+	switch op.Op {
+	case "walk", "putfile", "addpath":
+		return false
+	case "getmodule":
+		return !skippedGet(s)
+	case "readfile":
+		return s.Found != nil
+	}
+	return true
 }
 
 // Outcome of one history.
@@ -892,6 +772,10 @@ func compare(o Outcome) (violations, disagreements []diff) {
 			violations = append(violations, diff{kind: "spec", goV: s.TreeDiff,
 				what: fmt.Sprintf("op %d (%s): after %s the trees ToEntry hands out differ from those of a fresh set that loaded the same accepted texts and ran Process once - the one value remembers an earlier generation: %s", i, opName, how, s.TreeDiff)})
 		}
+		if s.FreshLoadDiff != "" {
+			violations = append(violations, diff{kind: "spec", goV: s.FreshLoadDiff,
+				what: fmt.Sprintf("op %d (%s %s): a load that fails leaves no trace - after the refused loads of this history the offer is answered differently than by a fresh set that took only the accepted operations: %s", i, o.H.Ops[i].Op, o.H.Ops[i].Name, s.FreshLoadDiff)})
+		}
 		if s.ShadowDiff != "" {
 			violations = append(violations, diff{kind: "spec", goV: s.ShadowDiff,
 				what: fmt.Sprintf("after op %d (%s %s): a lookup is answered differently than by a Modules value that ran the same history without the refused loads: %s", i, o.H.Ops[i].Op, o.H.Ops[i].Name, s.ShadowDiff)})
@@ -906,7 +790,16 @@ func compare(o Outcome) (violations, disagreements []diff) {
 	}
 	k := 0
 	for i, op := range o.H.Ops {
-		if op.Op == "walk" || (op.Op == "getmodule" && o.Go.Steps[i].Read == "nomodule") {
+		s := o.Go.Steps[i]
+		for _, f := range s.Implicit {
+			// the answers to the loads that stand for the files the run read by itself
+			if k < len(o.Model) && o.Model[k] != "accepted" {
+				disagreements = append(disagreements, diff{kind: "correspondence", goV: "read and registered by " + op.Op, model: o.Model[k],
+					what: fmt.Sprintf("op %d (%s): goyang read %s through the search path and registered it, the model refuses the text: %s", i, op.Op, f.Path, o.Model[k])})
+			}
+			k++
+		}
+		if !modelSees(op, s) {
 			continue
 		}
 		if k >= len(o.Model) {
@@ -915,9 +808,8 @@ func compare(o Outcome) (violations, disagreements []diff) {
 		}
 		m := o.Model[k]
 		k++
-		s := o.Go.Steps[i]
 		switch op.Op {
-		case "load":
+		case "load", "readfile":
 			g := s.Load
 			if o.H.Mode == "stmts" {
 				// parser and builder are one flag there
@@ -1047,6 +939,13 @@ func replay(f *lib.Flags) {
 		lib.Fatal("%s: neither a replay file nor a history", f.Replay) // a bare history (a corpus file) is accepted as well
 	}
 	o := runAll([]History{h}, f)[0]
+	for _, f := range h.Files {
+		if f.Dir {
+			fmt.Printf("--- directory %s/\n", f.Path)
+		} else {
+			fmt.Printf("--- file %s\n%s", f.Path, f.Text)
+		}
+	}
 	for i, op := range h.Ops {
 		switch op.Op {
 		case "load":
@@ -1055,6 +954,12 @@ func replay(f *lib.Flags) {
 			fmt.Printf("--- op %d: read %s %s\n", i, op.Key, op.Path)
 		case "getmodule":
 			fmt.Printf("--- op %d: getmodule %s\n", i, op.Name)
+		case "readfile":
+			fmt.Printf("--- op %d: Read(%q)\n", i, op.Name)
+		case "addpath":
+			fmt.Printf("--- op %d: AddPath(%q)\n", i, op.Name)
+		case "putfile":
+			fmt.Printf("--- op %d: the file %s appears\n%s", i, op.Name, op.Text)
 		default:
 			fmt.Printf("--- op %d: %s\n", i, op.Op)
 		}
@@ -1067,11 +972,31 @@ func replay(f *lib.Flags) {
 	for i, op := range h.Ops {
 		s := o.Go.Steps[i]
 		m := "(not asked)"
-		if op.Op != "walk" && !(op.Op == "getmodule" && s.Read == "nomodule") && o.Model != nil && k < len(o.Model) {
+		k += len(s.Implicit)
+		if modelSees(op, s) && o.Model != nil && k < len(o.Model) {
 			m = o.Model[k]
 			k++
 		}
+		if h.fileMode() {
+			fmt.Printf("op %d %s: search path afterwards: %v\n", i, op.Op, s.Path)
+		}
+		if s.FreshLoadDiff != "" {
+			fmt.Printf("op %d %s %s: answered DIFFERENTLY than by a fresh set: %s\n", i, op.Op, op.Name, s.FreshLoadDiff)
+		}
+		if s.DocDiff != "" {
+			fmt.Printf("op %d %s %s: differs from the documented-side-effect twin (D18-P1 does not explain it): %s\n", i, op.Op, op.Name, s.DocDiff)
+		}
+		for _, f := range s.Implicit {
+			fmt.Printf("op %d %s: read %s through the search path\n", i, op.Op, f.Path)
+		}
 		switch op.Op {
+		case "readfile":
+			found := "no file found"
+			if s.Found != nil {
+				found = "file " + s.Found.Path
+			}
+			fmt.Printf("op %d Read(%s): %s; go: %s %s | model: %s\n", i, op.Name, found, s.Load, s.Err, m)
+		case "addpath", "putfile":
 		case "load":
 			fmt.Printf("op %d load %s: go: %s %s | model: %s\n", i, op.Name, s.Load, s.Err, m)
 		case "read":
@@ -1080,6 +1005,10 @@ func replay(f *lib.Flags) {
 			if op.Op == "getmodule" {
 				if s.Read == "nomodule" {
 					fmt.Printf("op %d getmodule %s: no such module registered (not executed)\n", i, op.Name)
+					continue
+				}
+				if s.Read == "getmodule-noread" {
+					fmt.Printf("op %d getmodule %s: not registered and not readable: %s (GetDiff: %q)\n", i, op.Name, s.Err, s.GetDiff)
 					continue
 				}
 				if s.GetDiff != "" {
@@ -1136,9 +1065,21 @@ func main() {
 	hs := loadCorpus()
 	nCorpus := len(hs)
 	for _, h := range hs[:nCorpus] {
-		// the corpus also in the statement-level mode
+		// the corpus also in the statement-level mode (file histories have the one mode)
+		if h.fileMode() {
+			continue
+		}
 		h.Mode = "stmts"
 		hs = append(hs, h)
+	}
+	// FILE histories (genfile.go; shards of their own), in front of the bulk so that a mass
+	// disagreement of the bulk does not end the run before them
+	nFiles := 600
+	if f.Thorough() {
+		nFiles = 20000
+	}
+	for i := 0; i < nFiles; i++ {
+		hs = append(hs, genFileHistory(f.Rand(7000000+i), maxLen))
 	}
 	for i := 0; i < n; i++ {
 		var h History
@@ -1236,6 +1177,8 @@ func main() {
 	origins := map[string]int64{}
 	modes := map[string]int64{}
 	examined := 0
+	var nKnown int64
+	filesDist := map[string]int64{}
 	// in slices, so that a mass disagreement stops the run early
 	const slice = 2000
 	for lo := 0; lo < len(hs) && examined < 50; lo += slice {
@@ -1265,9 +1208,26 @@ func main() {
 				outside++
 			}
 			viol, dis := compare(o)
-			for _, v := range viol {
-				examined++
-				res.AddDisagreement(lib.Disagreement{Kind: v.kind, Input: o.H, Go: v.goV, SpecVerdict: "violates", What: v.what, Replay: o.H})
+			// the known finding D18-P1 (see worker.go): a file history that differs from the strict twin
+			// and behaves in every step exactly like the documented-side-effect twin
+			known := ""
+			if o.H.fileMode() && len(viol) > 0 && o.Go.DocSideEffects > 0 && o.Go.DocDiffs == 0 {
+				known = "D18-P1"
+				nKnown++
+			}
+			for k, v := range viol {
+				if known != "" {
+					// (one record per history, three histories: the records are for reading, the count is in the distribution)
+					if k > 0 || nKnown > 3 {
+						continue
+					}
+				} else {
+					examined++
+				}
+				res.AddDisagreement(lib.Disagreement{Kind: v.kind, Input: o.H, Go: v.goV, SpecVerdict: "violates", Known: known, What: v.what, Replay: o.H})
+			}
+			if o.H.fileMode() {
+				fileStats(o, filesDist)
 			}
 			// the executable specification on the Go output: every process of the history gave what
 			// the batch run of the accepted texts on a fresh set gives, no rejected load left a trace
@@ -1379,7 +1339,8 @@ func main() {
 			}
 			k := 0
 			for i, op := range o.H.Ops {
-				if op.Op == "walk" || (op.Op == "getmodule" && o.Go.Steps[i].Read == "nomodule") || o.Model == nil || k >= len(o.Model) {
+				k += len(o.Go.Steps[i].Implicit)
+				if !modelSees(op, o.Go.Steps[i]) || o.Model == nil || k >= len(o.Model) {
 					continue
 				}
 				if op.Op == "read" && o.Model[k] != "unprocessed" {
@@ -1434,6 +1395,8 @@ func main() {
 	res.Distribution["bad_texts_by_fault_and_answer"] = faults
 	res.Distribution["refused_multi_statements_registered_before_the_refusal"] = multiHeads
 	res.Distribution["histories_by_arrival_order"] = origins
+	res.Distribution["file_histories"] = filesDist
+	res.Distribution["file_histories_tagged_D18-P1"] = nKnown
 	res.Distribution["histories_outside_model"] = outside
 	res.Distribution["crashes"] = crashes
 	res.Notes = append(res.Notes,
